@@ -9,10 +9,11 @@ import (
 // pre-states directly and drive cleanup cycles without any hook in the repository.
 
 type verifEntryView struct {
-	key string
-	val interface{}
-	e   int64
-	c   int64
+	key   string
+	val   interface{}
+	e     int64
+	c     int64
+	never bool // Walk views only: ExpireAt() is the zero time
 }
 
 type verifBackend struct {
@@ -74,12 +75,12 @@ func verifNewBackend(kind int, cfg Config) *verifBackend {
 				if !ok || string(en.K) != string(key) {
 					return verifEntryView{}, false
 				}
-				return verifEntryView{string(en.K), en.V, en.E, en.C}, true
+				return verifEntryView{key: string(en.K), val: en.V, e: en.E, c: en.C}, true
 			},
 			count: c.Len,
 			walk: func(f func(verifEntryView)) (int, error) {
 				return c.Walk(func(en Entry) error {
-					f(verifEntryView{key: string(en.Key()), val: en.Value(), e: en.ExpireAt().UnixNano()})
+					f(verifEntryView{key: string(en.Key()), val: en.Value(), e: en.ExpireAt().UnixNano(), never: en.ExpireAt().IsZero()})
 					return nil
 				})
 			},
@@ -101,12 +102,12 @@ func verifNewBackend(kind int, cfg Config) *verifBackend {
 					return verifEntryView{}, false
 				}
 				en := x.(*TraitEntry)
-				return verifEntryView{string(en.K), en.V, en.E, en.C}, true
+				return verifEntryView{key: string(en.K), val: en.V, e: en.E, c: en.C}, true
 			},
 			count: c.Len,
 			walk: func(f func(verifEntryView)) (int, error) {
 				return c.Walk(func(en Entry) error {
-					f(verifEntryView{key: string(en.Key()), val: en.Value(), e: en.ExpireAt().UnixNano()})
+					f(verifEntryView{key: string(en.Key()), val: en.Value(), e: en.ExpireAt().UnixNano(), never: en.ExpireAt().IsZero()})
 					return nil
 				})
 			},
@@ -128,12 +129,12 @@ func verifNewBackend(kind int, cfg Config) *verifBackend {
 				if !ok || string(en.K) != string(key) {
 					return verifEntryView{}, false
 				}
-				return verifEntryView{string(en.K), en.V, en.E, en.C}, true
+				return verifEntryView{key: string(en.K), val: en.V, e: en.E, c: en.C}, true
 			},
 			count: c.Len,
 			walk: func(f func(verifEntryView)) (int, error) {
 				return c.Walk(func(en EntryOf[int]) error {
-					f(verifEntryView{key: string(en.Key()), val: en.Value(), e: en.ExpireAt().UnixNano()})
+					f(verifEntryView{key: string(en.Key()), val: en.Value(), e: en.ExpireAt().UnixNano(), never: en.ExpireAt().IsZero()})
 					return nil
 				})
 			},
